@@ -279,6 +279,43 @@ CONSUMERS = [
 ]
 
 
+def slice_cases(tier):
+    """slice algebra: every chain of take / skip (which the implementation fuses into one slice node) with every argument, over a
+    finite, an infinite, an aggregated and a chained source, possibly with one non-slice adaptor in the middle"""
+    srcs = [('fin10', '[0, 1, 2, 3, 4, 5, 6, 7, 8, 9].to_generator()', list(range(10)), False),
+            ('count', 'count().to_generator()', list(range(64)), True),
+            ('agg', '[1, 2, 3, 4, 5, 6, 7, 8].to_generator().aggregate(add2)', list(itertools.accumulate(range(1, 9))), False),
+            ('chain', '([0, 1, 2].to_generator() + count().to_generator().map(dbl))', [0, 1, 2] + [2 * i for i in range(60)], True)]
+    args = (0, 1, 2, 3, 5, 8, 12)
+    ops = [('take', n) for n in args] + [('skip', n) for n in args]
+    mids = [None, ('map(inc)', '.map(inc)', lambda l: [x + 1 for x in l])]
+    depth = 3 if tier == 'quick' else 4
+    out = []
+    for name, expr, l0, inf in srcs:
+        for k in range(1, depth + 1):
+            for chain in itertools.product(ops, repeat=k):
+                if tier == 'quick' and k == 3 and len({o for o, n in chain}) == 1:
+                    continue
+                for mid in (mids if 2 <= k <= 3 else [None]):
+                    l, e, is_inf = list(l0), expr, inf
+                    for i, (o, n) in enumerate(chain):
+                        if mid and i == k - 1:
+                            e += mid[1]; l = mid[2](l)
+                        e += '.%s(%d)' % (o, n)
+                        if o == 'take':
+                            l = l[:n]; is_inf = False
+                        else:
+                            l = l[n:]
+                    if is_inf:
+                        exp = (Seq(l[:12]), Seq(l[:12]))
+                        src = 'let p = %s; (p.take(12).to_array(), p.take(12).to_array())' % e
+                    else:
+                        exp = (Seq(l), Seq(l), len(l))
+                        src = 'let p = %s; (p.to_array(), p.to_array(), p.len())' % e
+                    out.append({'sig': 'C16|slices|%s|%s%s' % (name, '.'.join('%s%d' % c for c in chain), ('|' + mid[0]) if mid else ''), 'src': src, 'exp': exp})
+    return out
+
+
 def lazy_cases(tier):
     out = []
     ints = [a for a in ADAPTORS if a[4]]
@@ -327,7 +364,7 @@ def run(tier):
     rep = Report(PROP, tier, 'model_checking',
                  'part A: explicit-state BFS over Generator<int> values (finite, empty, infinite sources) with every adaptor and every '
                  'consumer on each edge, consumers run on the post-state and again on the pre-state, compared with Python lists / '
-                 'iterators; part B: every pipeline of <=2 (thorough 3) adaptors over a ticking infinite source x consumers: evaluated '
+                 'iterators; part C: every chain of <=3 (thorough 4) take / skip steps with 7 arguments each over a finite, an infinite, an aggregated and a chained source (with a map before the last step as a second variant), consumed twice; part B: every pipeline of <=2 (thorough 3) adaptors over a ticking infinite source x consumers: evaluated '
                  'source elements <= what a lazy reference pipeline pulls + a constant look-ahead per adaptor; non-trivial = edges '
                  'whose post-state differs + distinct pipelines')
     dom = GenDomain(tier)
@@ -354,6 +391,10 @@ def run(tier):
             elif nlines > c['need'] + c['slack']:
                 rep.fail(Failure(PROP, 'C16|lazy|%s|over-evaluation' % c['name'], c,
                                  '<= %d source elements (lazy reference pulls %d, look-ahead %d)' % (c['need'] + c['slack'], c['need'], c['slack']), nlines, job))
+    from ..table import run_table
+    sl = slice_cases(tier)
+    rep.bounds['slice_chains'] = len(sl)
+    run_table(rep, sl, {'prelude': [PRELUDE], 'limits': {'search': 2000}, 'dump': {'max_items': 70}}, chunk=300)
     rep.sample({'edge': '[1,2,3,4,5].to_generator() --skip(2)--> then --take(5)--> [3,4,5]'})
     rep.sample({'lazy': cases[0]})
     rep.sample({'lazy': cases[len(cases) // 2]})
